@@ -54,6 +54,7 @@ SortOK_ == Directed =>
         (s \in outs) <=> (\E cyc \in Perms(C) : IsSortOutput(V, E, s, cyc))
 TopoAcyclic_ == Directed => (CyclicComps(V, E) = {} => \A s \in SortOutputs(V, E) : IsTopoOrder(V, E, s))
 CyclesOK_ == Directed => ElemCycles(V, E) = ElemCyclesDef(V, E)
+CycleSearchOK_ == Directed => UNION {CyclesFrom([v \in V |-> Succ(E, v)], <<s>>) : s \in V} = ElemCyclesDef(V, E)
 CyclesInScc_ == Directed => \A c \in ElemCycles(V, E) : \E C \in CyclicComps(V, E) : Rng(c) \subseteq C
 DomOK_ == Directed => \A r \in V : \A v \in Reach(E, r) \ {r} :
             /\ SDom(E, r, v) = SDomDef(V, E, r, v)
@@ -68,6 +69,8 @@ CcOK_ == ~Directed => IsPartition(CCs(V, E), V) /\ CCs(V, E) = SCCs(V, E)
 CliqueOK_ == ~Directed => /\ MaxCliques(V, E) = MaxCliquesDef(V, E)
                           /\ \A S \in SUBSET V : IsMaxClique(V, E, S) <=> S \in MaxCliquesDef(V, E)
                           /\ UNION MaxCliques(V, E) = V
+\* the increasing-order clique enumeration (CliqueSearch.tla's step relation) ends exactly in the maximal cliques
+CliqueSearchOK_ == ~Directed => CliqueLeaves([v \in V |-> Succ(E, v)], {}, V) = MaxCliquesDef(V, E)
 CoreOK_ == ~Directed => /\ \A k \in 0 .. N + 1 : KCore(V, E, k) = KCoreDef(V, E, k)
                         /\ UNION {Shell(V, E, k) : k \in 0 .. Degeneracy(V, E)} = V
                         /\ KCore(V, E, Degeneracy(V, E) + 1) = {}
@@ -77,6 +80,12 @@ ChiOK_ == ~Directed => /\ Chi(V, E) = ChiDef(V, E)
                        /\ \A k \in 0 .. N : KColourable(V, E, k) <=> k >= ChiDef(V, E)
                        /\ Chi(V, E) <= Degeneracy(V, E) + 1
                        /\ \A S \in MaxCliques(V, E) : Cardinality(S) <= Chi(V, E)
+\* the canonical colouring search along ANY vertex order decides k-colourability (the step relation
+\* ChromaticSearch.tla runs as a state machine on recorded graphs of 18..32 nodes)
+SearchOK_ == ~Directed => LET chi == ChiDef(V, E) n == Cardinality(V) IN
+                \A ord \in Perms(V) : LET back == BackSets(E, ord) IN
+                   /\ IsPermOf(ord, V)
+                   /\ \A k \in 0 .. N + 1 : CanonCompletable(back, n, <<>>, k) <=> k >= chi
 \* the elimination rank equals the definition of independence / spanning by symmetric differences
 BasisOK_ == ~Directed =>
      LET cyc == {CycleEdges(c) : c \in UCycles}       \* edge sets of all cycles
@@ -109,11 +118,14 @@ SortOK == Done => SortOK_
 TopoAcyclic == Done => TopoAcyclic_
 CyclesOK == Done => CyclesOK_
 CyclesInScc == Done => CyclesInScc_
+CycleSearchOK == Done => CycleSearchOK_
 DomOK == Done => DomOK_
 CcOK == Done => CcOK_
 CliqueOK == Done => CliqueOK_
+CliqueSearchOK == Done => CliqueSearchOK_
 CoreOK == Done => CoreOK_
 ChiOK == Done => ChiOK_
+SearchOK == Done => SearchOK_
 BasisOK == Done => BasisOK_
 MsfOK == Done => MsfOK_
 KccOK == Done => KccOK_
